@@ -285,3 +285,6 @@ def replay(cs, env):
     for c, cr in env.execute([cs]):
         judge(res, c, cr)
     return res
+
+
+RULE = RULE + ' Directed motifs: index-only edits; a caller calculated immediately before and after an edit of the function body it calls; a structure typed through another structure that is redefined with a typification of another shape; a calculation refused at run time followed by a data edit and a calculation over the same global.'
